@@ -209,6 +209,8 @@ class TreeSim(taps.Sim):
         self._upd_val = None
         self._was_bankrupt = False
         self.bankrupt_at = None
+        self.bankrupt_seq = None
+        self.bankrupt_mid_run = False
 
     def _near_close_watch(self, sec, amount, update, orig):
         """twin runs: an amount within float noise of -value sits on the close-out shortcut's exact-equality
@@ -356,7 +358,11 @@ class TreeSim(taps.Sim):
                 self.violation("bankrupt_missed", "root value %r < 0 at an update on %s but the strategy is not flagged bankrupt" % (v, date))
             elif not self._was_bankrupt:
                 self.bankrupt_at = self.model.t
+                self.bankrupt_seq = self.seq  # event number of the liquidation (trades logged later were made on a liquidated tree)
+                self.bankrupt_mid_run = bool(getattr(self, "in_run", False))  # declared by an update inside the date's algo run?
                 self.fire("bankruptcy")
+                if self.bankrupt_mid_run:
+                    self.fire("bankruptcy_mid_run")
                 # clean: every position in the whole tree is closed by the liquidation
                 for n in root.members:
                     if not hasattr(n, "capital") and abs(n.position) >= TOL:
@@ -1120,7 +1126,12 @@ class TreeSim(taps.Sim):
         root = self.root
         # (whether changes are pending is decided by the history - an operation has just completed - not by the
         # implementation's own stale flag: a change that failed to raise the flag is exactly what must be seen)
-        self.fire("freshness_fork_stale" if root.stale else "freshness_fork_not_flagged")
+        flagged = bool(root.stale)
+        self.fire("freshness_fork_stale" if flagged else "freshness_fork_not_flagged")
+        # flagged: the read and the explicit update perform the same computation -> bit for bit.  Not flagged: the read returns
+        # what an earlier update cached and the explicit update recomputes it - the same sums in another order (carry already
+        # swept into cash, ...), equal up to float residue -> compared at the ledger's relative tolerance
+        ftol = 0.0 if flagged else REL * (self.model.gross() + self.model.peak_ever + abs(self.cfg.get("capital") or 0.0) + 1.0)
         mv = self.model.value(self.model.root)
         if not root.fixed_income and not root.bankrupt and not (mv > REL * self.model.gross()):
             # the next update would declare bankruptcy and liquidate: that is a new event performed by the
@@ -1174,9 +1185,9 @@ class TreeSim(taps.Sim):
                 if hasattr(va, "to_numpy"):
                     xa = va.to_numpy(dtype=float, na_value=float("nan"))
                     xb = vb.to_numpy(dtype=float, na_value=float("nan"))
-                    same = va.shape == vb.shape and list(va.index) == list(vb.index) and all((p == q) or (p != p and q != q) for p, q in zip(xa.ravel(), xb.ravel()))
+                    same = va.shape == vb.shape and list(va.index) == list(vb.index) and all((p == q) or (p != p and q != q) or abs(p - q) <= ftol for p, q in zip(xa.ravel(), xb.ravel()))
                 else:
-                    same = (va == vb) or (va != va and vb != vb)
+                    same = (va == vb) or (va != va and vb != vb) or (isinstance(va, (int, float)) and isinstance(vb, (int, float)) and abs(va - vb) <= ftol)
                 if not same:
                     self.violation("freshness", "%s.%s read with pending changes (read #%d of %s) = %s, after an explicit update = %s" % (tgt, prop, k + 1, seq, _short(va), _short(vb)), {"prop": prop, "read_no": k + 1})
                     return
